@@ -124,12 +124,12 @@ PROPS["C06"] = {
 PROPS["C16"] = {
     "n": {"quick": 1500, "thorough": 30000},
     "per_shard": 50,
-    "corr_targets": ["Corr/TemplateCorr.vo"],
-    "corr": "Corr/TemplateCorr.v: Model.Template.render_str (the engine's passes with the text re-lexed between the steps) vs TemplateEngine.RenderToDocument on generated templates and data, values with directive-like text included; per case also: the template text lexes to the tokens of its syntax tree, and the token-level pipeline of the theorem equals the text-level one (brace-free cases) and the reference (cases under the theorem's premises)",
+    "corr_targets": ["Corr/TemplateCorr.vo", "Corr/EngineCorr.vo"],
+    "corr": "Corr/EngineCorr.v: Model.Engine (blocks, inheritance chain) vs the engine on chains of up to five templates whose leaf is rendered; Corr/TemplateCorr.v: Model.Template.render_str (the engine's passes with the text re-lexed between the steps) vs TemplateEngine.RenderToDocument on generated templates and data, values with directive-like text included; per case also: the template text lexes to the tokens of its syntax tree, and the token-level pipeline of the theorem equals the text-level one (brace-free cases) and the reference (cases under the theorem's premises)",
     "trusted_base": [
         "Model/Template.v is hand-written from template.go (renderTemplate and its passes); the lexer lex mirrors the engine's regular expressions ({{\\w+}}, {{#if\\s+\\w+}}, {{#each\\s+\\w+}}, {{/if}}, {{/each}}, {{else}}, {{this}}, {{@index}}, {{@first}}, {{@last}})",
-        "the link from the token-level pipeline (theorem) to the text-level engine is validated per generated case, not proved",
-        "blocks/inheritance and image placeholders are not modelled; the workload does not use them",
+        "the link from the token-level pipeline to the text-level engine is proved for literal text and data without an opening brace (Proofs/TemplateLex.v) and validated per generated case otherwise",
+        "blocks and inheritance are modelled in Model/Engine.v (theorems under C17) and exercised here by the inheritance stream (correspondence + reference: the root with the nearest overrides); image placeholders are not modelled",
         "{{this}} for an item that is a map prints Go's %v of the map in the engine and the empty string in the model; the workload does not use it",
         "field values that are placeholders of sibling fields are not generated (the engine's result then depends on Go's map iteration order)",
     ],
